@@ -54,6 +54,7 @@ pub struct RunCtx {
     pub known_hits: BTreeMap<String, u64>,
     pub config: Value,
     pub verbose: bool,
+    pub t0: Option<std::time::Instant>,
 }
 
 const TRACE_CAP: usize = 600;
@@ -66,6 +67,7 @@ impl RunCtx {
             shape: 0x0f0f_0f0f_1357_9bdf,
             known,
             verbose,
+            t0: if verbose { Some(std::time::Instant::now()) } else { None },
             config: json!({}),
             ..Default::default()
         }
@@ -79,7 +81,7 @@ impl RunCtx {
         self.seq += 1;
         Self::absorb(&mut self.fp, s);
         if self.verbose {
-            eprintln!("#{} {}", self.seq, s);
+            eprintln!("#{} [{:.3}s] {}", self.seq, self.t0.get_or_insert_with(std::time::Instant::now).elapsed().as_secs_f64(), s);
         }
         if self.trace.len() < TRACE_CAP {
             self.trace.push(format!("#{} {}", self.seq, s));
